@@ -56,7 +56,7 @@ def body(c):
     c.cov["traces_validated_against_impl"] = len(obs)
     c.cov["exhaustive"] = False
     c.cov["visibility_contexts"] = 8
-    c.cov["rule"] = ("static schema with visibility predicates on 2 object types, 1 interface, 3 fields, 1 argument, 1 input field, 1 enum value "
+    c.cov["rule"] = ("static schema (interface inheritance Super > Node > objects) with visibility predicates on 2 object types, 1 interface, 3 fields, 1 argument, 1 input field, 1 enum value "
                      "under all 8 flag contexts (exhaustive) + %d seeded random dynamic type systems (2-6 objects, interface inheritance, unions, "
                      "enum, custom scalar); every case is non-trivial; distinct by (flavour, flags, type system)" % nts)
     for o in obs[:1] + obs[-1:]:
